@@ -266,7 +266,7 @@ fn main() {
             let mut hist = HistoryThread::spawn();
             let mut history_variants = 0usize;
             while accepted < want && k - start < max_tries {
-                if GENERATE_TIMEOUTS.load(std::sync::atomic::Ordering::SeqCst) >= 10 {
+                if GENERATE_TIMEOUTS.load(std::sync::atomic::Ordering::SeqCst) >= 16 {
                     break;
                 }
                 let (g, text) = if (k as usize) < gen::N_REPO_EXAMPLES {
@@ -424,7 +424,7 @@ fn main() {
             let (mut runs, mut distinct_ns, mut grammars, mut self_checks) = (0i128, 0i128, 0i128, 0i128);
             let mut digest = common::rng::Fnv::new();
             for k in start..start + count {
-                if GENERATE_TIMEOUTS.load(std::sync::atomic::Ordering::SeqCst) >= 10 {
+                if GENERATE_TIMEOUTS.load(std::sync::atomic::Ordering::SeqCst) >= 16 {
                     break;
                 }
                 let item = TABLES_BASE + k;
